@@ -23,11 +23,11 @@ ADDENDA = {
     "C10": "375 shapes in total: also every CTE / derived-table wrapper (with and without a column list, star or named) over 8 set-operation body shapes, NATURAL / USING chains whose common column sits in a non-neighbour table, scope-name collisions (a WITH nested in a derived table / set operand / subquery / CTE body whose CTE is named like a real table or an outer CTE, next to a sibling reading the real table, with and without a top-level WITH, both orders) a star over every order of table / derived-table items under four join forms, duplicate references of one expression / USING column, and a schema of 15 quoted column names whose only case-significant letters are non-ASCII, qualified with identify=False in every dialect; DuckDB decides rows and output names.",
     "C11": "Also LIMIT / OFFSET without a total order (judged by row count and containment in the unlimited result), correlated subqueries over two same-named outer columns, and set operations / self joins / IN subqueries whose operands read the SAME table (own name, same alias, two aliases); two plans of one query over the same data must agree with each other.",
     "C12": "States also include " + DT + ", a cast to every DType member (bare / parameterised / nested) and trees over classes defined outside the library (some named like a core class, interleaved with their namesakes in both orders); an empty list must come back as an empty list.",
-    "C13": "All oracles also run on " + DT + ", as written and with every inter-token gap turned into LF / CRLF+TAB, and on every ordered pair of 11 x 6 inputs fed to one reused Tokenizer; node positions are judged for identifiers, written stars and literals.",
+    "C13": "All oracles also run on " + DT + ", as written and with every inter-token gap turned into LF / CRLF+TAB, and on every ordered pair of 11 x 6 inputs fed to one reused Tokenizer; node positions are judged for identifiers, written stars and literals; every core statement also runs behind a byte order mark / zero-width space / no-break space at the very start of the input.",
     "C14": "Inputs also include " + DT + " with its 1-token deletions / duplications (parse relation) and generated into 12 (thorough: all) targets, and G_clauses statements; the WARN reference for generation is the list of Generator.unsupported() calls; the RAISE message must equal the documented rendering exactly.",
     "C15": "Calls also include " + DT + " (quick: every second), 17 transform probes into every target, BY NAME star expansions and twins that are equal under Expr.__eq__ but differ as text (case spellings of JSON keys, type names, collations, parameters, units; comments); every call runs twice in a row in one cell; each dialect gets a cold and a warm (all other dialects loaded first) process. Keyword probes: every key / value word of every dialect's tokenizer / parser / Dialect class tables (3852 words) in 12 syntactic positions in 8 (thorough: all) dialects, cold vs warm vs after the forward history. Histories of FAILING inputs: every token prefix and 1-token deletion of every dialect-test statement in 16 cells; after each input the class-level tables are compared and the words that entered / left one are probed at once and compared with a cold process.",
     "C17": "Wrappers include scalar / IN subqueries whose body is a set operation, and the same inner query referenced twice (bare with columns qualified by its own name + through an alias in a scalar subquery / self join / IN subquery, either order).",
-    "C18": "Names are given as strings, as Table objects and as quoted / unquoted Identifier objects.",
+    "C18": "Names are given as strings, as Table objects and as quoted / unquoted Identifier objects; column specs include the same columns in two orders; a third reference is a fresh schema that received only the last registration of each table spelling.",
     "C19": "Scheduling points also lie in every function anywhere in the package that an AST scan of the current tree finds writing state shared between threads (global / module-level / class-level stores and mutating calls, cache decorators) and in everything such a function calls; for each such call-time writer the dialect-test statements reaching it are discovered and run against themselves / each other as additional 2-thread harnesses, generated into six dialects.",
     "C20": "Edits include replacing a node by an instance of its sub- / superclass (CAST -> TRY_CAST, HEX -> LOWER_HEX, EXPLODE -> POSEXPLODE).",
 }
